@@ -47,11 +47,14 @@ def generate(tier, rng):
                         # an EMPTY vis() is an override too (private): no IntoDiscriminant impl
                         attrs.append('vis()' if k % 12 == 3 else ('vis(pub(super))' if k % 12 == 9 else 'vis(pub(crate))'))
                     if mode in (0, 2, 4):
+                        attrs.append('allow(dead_code, unused_variables)')
                         attrs.append('derive(Hash, PartialOrd, Ord)')
                         asserts.append('fn _needs_hash_ord<X: core::hash::Hash + Ord>() {} fn _chk_hash() { _needs_hash_ord::<$D>(); }')
                     if mode in (1, 5):
                         attrs.append('derive(strum::EnumIter, strum::Display)')
                         attrs.append('doc = "generated kinds"')
+                        # a passed-through attribute with SEVERAL comma-separated arguments
+                        attrs.append('strum(prefix = "", ascii_case_insensitive)')
                         asserts.append('fn _chk_iter() { let _ = <$D as strum::IntoEnumIterator>::iter().count(); }')
                         # pass-through attribute on a variant: the discriminant's Display must pick it up
                         e.extra['pt_expect'] = {}
